@@ -1,4 +1,5 @@
 """Enum-variant and struct-field tables scraped from Rust sources (prototype)."""
+import json
 import re, os, glob
 
 
@@ -77,6 +78,8 @@ def scrape(src, modpath, enums, structs):
 
 
 FIELD_TYPES = {}
+ALIASED_FIELDS = set()    # (struct, current name, name in the pinned tree, type): renamed fields the harnesses address by their old name
+_PRISTINE = None
 
 BUILTIN_ENUMS = {
     'Option': ['None', 'Some'], 'Result': ['Ok', 'Err'], 'ControlFlow': ['Continue', 'Break'],
@@ -152,10 +155,13 @@ class TypeTables:
         if not cands:
             return None
         if len(cands) == 1:
-            return cands[0][1]
-        qual = '::'.join(parts[:-1])
-        best = [v for (m, v) in cands if qual and (qual.endswith(m) or m.endswith(qual))]
-        return best[0] if best else cands[0][1]
+            m, fl = cands[0]
+        else:
+            qual = '::'.join(parts[:-1])
+            best = [(m, v) for (m, v) in cands if qual and (qual.endswith(m) or m.endswith(qual))]
+            m, fl = best[0] if best else cands[0]
+        names = self._pristine_names(parts[-1], m, [f for f, _ in fl])      # renamed fields under their old names (see fields())
+        return [(n, t) for n, (_, t) in zip(names, fl)]
 
     def fields(self, ty):
         parts = ty.split('::')
@@ -163,10 +169,48 @@ class TypeTables:
         if not cands:
             return None
         if len(cands) == 1:
-            return cands[0][1]
-        qual = '::'.join(parts[:-1])
-        best = [v for (m, v) in cands if qual and (qual.endswith(m) or m.endswith(qual))]
-        return best[0] if best else cands[0][1]
+            m, cur = cands[0]
+        else:
+            qual = '::'.join(parts[:-1])
+            best = [(m, v) for (m, v) in cands if qual and (qual.endswith(m) or m.endswith(qual))]
+            m, cur = best[0] if best else cands[0]
+        return self._pristine_names(parts[-1], m, cur)
+
+    def _pristine_names(self, name, mod, cur):
+        """the harnesses name struct fields as the pinned tree does; a field that a later tree has renamed is presented under its old name
+        when its type identifies it uniquely among the fields the pinned tree does not know (MIR addresses fields by index, so only the
+        harness side needs the mapping).  Every mapping is recorded in ALIASED_FIELDS for the evidence."""
+        global _PRISTINE
+        if _PRISTINE is None:
+            try:
+                _PRISTINE = json.load(open(os.path.join(os.path.dirname(os.path.abspath(__file__)), 'pristine_fields.json')))
+            except Exception:
+                _PRISTINE = {}
+        modstr = '::'.join(mod) if isinstance(mod, (list, tuple)) else str(mod)
+        old = [fl for (m_, fl) in _PRISTINE.get(name, []) if m_ == modstr]
+        if len(old) != 1:
+            return cur
+        old = old[0]
+        old_names = [f for f, _ in old]
+        missing = [(f, t) for f, t in old if f not in cur]
+        if not missing:
+            return cur
+        ftys = None
+        for (m_, fl) in FIELD_TYPES.get(name, []):
+            if m_ == mod:
+                ftys = dict(fl)
+        if ftys is None:
+            return cur
+        norm = lambda t: re.sub(r'\s+', '', t or '')
+        new = [c for c in cur if c not in old_names]
+        out = list(cur)
+        for (f, t) in missing:
+            c_ = [c for c in new if norm(ftys.get(c)) == norm(t)]
+            others = [f2 for (f2, t2) in missing if f2 != f and norm(t2) == norm(t)]
+            if len(c_) == 1 and not others:
+                out[out.index(c_[0])] = f
+                ALIASED_FIELDS.add((name, c_[0], f, t))
+        return out
 
 
 if __name__ == '__main__':
